@@ -65,7 +65,7 @@ def run(chk):
     proved = chk.prove(MODULE, theorems, extra_targets=extra)
     if chk.tier == 'thorough' and proved:
         chk.leanchecker(MODULE)
-    n = 200 if chk.tier == 'thorough' else 32
+    n = 120 if chk.tier == 'thorough' else 32
     run = W.WireRun(chk, n, W.configs_for(chk.tier), values_per_msg=3 if chk.tier == 'quick' else 6,
                     ext=False, seed_salt=5)
     try:
